@@ -3,6 +3,7 @@ package sym
 import (
 	"fmt"
 	"math/rand"
+	"os"
 	"sort"
 	"strconv"
 	"strings"
@@ -85,6 +86,7 @@ type JobResult struct {
 	Samples        []string
 	Assumes        int
 	FeasUnknown    int
+	CacheHits      int
 	CrossChecked   int
 	Disagreements  int
 	ModelCheckFail int
@@ -117,7 +119,7 @@ type obsRec struct {
 type decision struct {
 	chosen int
 	n      int
-	from   int // when replaying the last prefix entry: search alternatives starting here
+	feas   []bool // feasibility of every alternative, computed when the decision was first met
 }
 
 // Engine executes one job.
@@ -158,6 +160,9 @@ type Engine struct {
 	errObjs   map[*ssa.Global]Value
 	lemmaDone map[int]bool
 	stubs     map[string]*ssa.Function
+	models    []map[string]uint64 // models known to satisfy the current path condition (counterexample cache)
+	pool      []map[string]uint64 // recent models from earlier paths; re-validated against each new path condition
+	cacheHits int
 	shadow    map[*Value]*shadow
 	cellName  map[*Value]string
 	curSite   string
@@ -225,16 +230,26 @@ func (e *Engine) Run() *JobResult {
 		if e.concreteMode() {
 			break
 		}
-		// backtrack
+		// backtrack to the deepest decision with an unexplored feasible alternative
 		k := len(e.decs) - 1
-		for k >= 0 && e.decs[k].chosen+1 >= e.decs[k].n {
-			k--
+		next := -1
+		for ; k >= 0; k-- {
+			d := e.decs[k]
+			for i := d.chosen + 1; i < d.n; i++ {
+				if d.feas[i] {
+					next = i
+					break
+				}
+			}
+			if next >= 0 {
+				break
+			}
 		}
 		if k < 0 {
 			break
 		}
 		e.prefix = append([]decision{}, e.decs[:k]...)
-		e.prefix = append(e.prefix, decision{chosen: -1, n: e.decs[k].n, from: e.decs[k].chosen + 1})
+		e.prefix = append(e.prefix, decision{chosen: next, n: e.decs[k].n, feas: e.decs[k].feas})
 	}
 	// vacuity: every statically known assert label must have been reached
 	if !e.concreteMode() && !e.res.Truncated {
@@ -268,6 +283,7 @@ func (e *Engine) runPath(fn *ssa.Function) (cont bool) {
 	e.concSeq = 0
 	e.errObjs = map[*ssa.Global]Value{}
 	e.lemmaDone = map[int]bool{}
+	e.models = append([]map[string]uint64{}, e.pool...)
 	e.cellName = map[*Value]string{}
 	e.numStr = map[string]*Term{}
 	e.th = nil
@@ -321,11 +337,20 @@ func (e *Engine) runPath(fn *ssa.Function) (cont bool) {
 			args[i] = e.st.Const(w, uint64(v))
 		}
 		e.runMain(fn, args)
+		if os.Getenv("SYMGO_TRACE") != "" {
+			var ds []string
+			for _, d := range e.decs {
+				ds = append(ds, fmt.Sprintf("%d/%d%v", d.chosen, d.n, d.feas))
+			}
+			fmt.Fprintf(os.Stderr, "PATH %s\n", strings.Join(ds, " "))
+		}
 		e.res.Paths++
 		completed = true
 		e.samplePath()
 	}()
 	_ = completed
+	e.res.CacheHits += e.cacheHits
+	e.cacheHits = 0
 	if e.concreteMode() {
 		e.res.Observations = append(e.res.Observations, e.observes)
 	}
@@ -342,6 +367,15 @@ func (e *Engine) addPC(c *Term) {
 	}
 	e.pc = append(e.pc, c)
 	e.pcSet[c.ID] = true
+	if len(e.models) > 0 {
+		keep := e.models[:0]
+		for _, m := range e.models {
+			if e.st.Eval(c, m, map[int]uint64{}) != 0 {
+				keep = append(keep, m)
+			}
+		}
+		e.models = keep
+	}
 	if c.Op == OpAnd {
 		for _, a := range c.Args {
 			e.pcSet[a.ID] = true
@@ -383,11 +417,43 @@ func (e *Engine) feasible(c *Term) bool {
 	if e.concreteMode() {
 		panic("feasible() on symbolic term in concrete mode: " + c.String())
 	}
+	if os.Getenv("SYMGO_NOCACHE") == "" {
+		for _, m := range e.models {
+			if e.st.Eval(c, m, map[int]uint64{}) != 0 {
+				e.cacheHits++
+				return true
+			}
+		}
+	}
 	e.flush()
 	e.solver.Push()
 	e.emitLemmas(c)
 	e.solver.Assert(c)
 	r := e.solver.Check("feasibility")
+	if r == Sat {
+		m := e.solver.Model()
+		// keep only verified models
+		ok := e.st.Eval(c, m, map[int]uint64{}) != 0
+		if ok {
+			memo := map[int]uint64{}
+			for _, p := range e.pc {
+				if e.st.Eval(p, m, memo) == 0 {
+					ok = false
+					break
+				}
+			}
+		}
+		if ok {
+			if len(e.models) >= 8 {
+				e.models = e.models[1:]
+			}
+			e.models = append(e.models, m)
+			if len(e.pool) >= 8 {
+				e.pool = e.pool[1:]
+			}
+			e.pool = append(e.pool, m)
+		}
+	}
 	e.solver.Pop()
 	if r == Unknown {
 		e.res.FeasUnknown++
@@ -402,25 +468,24 @@ func (e *Engine) choose(n int, cond func(i int) *Term, exhaustive bool) int {
 	if n <= 0 {
 		panic(&abortSignal{kind: abortInfeasible})
 	}
-	start := 0
 	if e.pos < len(e.prefix) {
 		d := e.prefix[e.pos]
-		if d.chosen >= 0 {
-			e.pos++
-			e.decs = append(e.decs, d)
-			e.addPC(cond(d.chosen))
-			return d.chosen
-		}
-		start = d.from
+		e.pos++
+		e.decs = append(e.decs, d)
+		e.addPC(cond(d.chosen))
+		return d.chosen
 	}
+	// a new decision point: settle the feasibility of every alternative now,
+	// while the state is live, so that backtracking never re-executes a
+	// prefix only to find the alternative infeasible.
 	e.res.Decisions++
-	// the last alternative needs no query when all earlier ones were refuted
-	// and we started from 0 (pc is satisfiable by invariant and the
-	// alternatives are exhaustive).
-	for i := start; i < n; i++ {
+	feas := make([]bool, n)
+	first, count := -1, 0
+	for i := 0; i < n; i++ {
 		c := cond(i)
 		ok := false
-		if exhaustive && start == 0 && i == n-1 {
+		if exhaustive && i == n-1 && count == 0 {
+			// alternatives are exhaustive and the path condition is satisfiable: the last one must be feasible
 			ok = true
 			if v, dec := e.syntactic(c); dec && !v {
 				ok = false
@@ -428,14 +493,24 @@ func (e *Engine) choose(n int, cond func(i int) *Term, exhaustive bool) int {
 		} else {
 			ok = e.feasible(c)
 		}
+		feas[i] = ok
 		if ok {
-			e.pos++
-			e.decs = append(e.decs, decision{chosen: i, n: n})
-			e.addPC(c)
-			return i
+			count++
+			if first < 0 {
+				first = i
+			}
 		}
 	}
-	panic(&abortSignal{kind: abortExhausted})
+	if first < 0 {
+		panic(&abortSignal{kind: abortExhausted})
+	}
+	// forced decisions (one feasible alternative) are recorded too: a replay
+	// must consume exactly one prefix entry per decision point
+	e.pos++
+	e.decs = append(e.decs, decision{chosen: first, n: n, feas: feas})
+	e.prefix = append(e.prefix, decision{chosen: first, n: n, feas: feas})
+	e.addPC(cond(first))
+	return first
 }
 
 // branch decides a Boolean condition, forking if both sides are feasible.
